@@ -247,6 +247,20 @@ def gen_config_variant(rng, cmd):
     return argv, configs
 
 
+def gen_config_twice(rng, cmd):
+    """The same --config file given twice: its tokens count twice, exactly as if written inline twice."""
+    groups = [g for g in cmd["groups"] if g[0] not in ("-leg", "-f")]
+    rng.shuffle(groups)
+    k = rng.randint(0, len(groups))
+    moved, kept = groups[:k], groups[k:]
+    files = list(cmd["files"])
+    in_cfg = files[-1:]
+    toks = [t for g in moved for t in g] + in_cfg
+    inline = files[:-1] + [t for g in kept for t in g] + toks + toks
+    argv = files[:-1] + [t for g in kept for t in g] + ["--config", "cfgtwice.txt", "--config", "cfgtwice.txt"]
+    return inline, argv, {"cfgtwice.txt": " ".join(toks) + "\n"}
+
+
 ENVVARS = [("COLUMNS", "40"), ("COLUMNS", "200"), ("LINES", "10"), ("LANG", "de_DE.UTF-8"), ("LC_ALL", "C"),
            ("LC_NUMERIC", "de_DE.UTF-8"), ("USER", "someoneelse"), ("HOME", "/nonexistent"), ("TERM", "dumb"),
            ("NO_COLOR", "1"), ("MPLCONFIGDIR", "/nonexistent"), ("COLUMNS", None)]
@@ -315,6 +329,9 @@ def gen_spec_c13(seed, run, tier):
             continue
         if r < 0.28:
             cases.append({"kind": "order", "a": plain(cmd), "b": linearise(rng, cmd)})
+        elif r < 0.56 and rng.random() < 0.1:
+            inline, argv, configs = gen_config_twice(rng, cmd)
+            cases.append({"kind": "config", "sub": "twice", "a": inline, "b": argv, "configs": configs})
         elif r < 0.56:
             argv, configs = gen_config_variant(rng, cmd)
             case = {"kind": "config", "a": plain(cmd), "b": argv, "configs": configs}
